@@ -1011,12 +1011,12 @@ func TestVerif_C12(t *testing.T) {
 			"key+value of one entry stays below 61 KB (a pair above 64 KB cannot be stored in a node at all)",
 			"JSON documents are not covered here")
 		defer rec.Write(t)
-		vh.Check(t, "histories", 220, 700, func(rt *rapid.T) { c12MapCase(rt, rec) })
+		vh.Check(t, "histories", 450, 700, func(rt *rapid.T) { c12MapCase(rt, rec) })
 	})
 	t.Run("addrmap", func(t *testing.T) {
 		rec := vh.NewRecorder("C12", "addrmap", "exploration", c12EditorRule)
 		defer rec.Write(t)
-		vh.Check(t, "histories", 40, 150, func(rt *rapid.T) { c12EditorCase(rt, rec, true, false) })
+		vh.Check(t, "histories", 80, 150, func(rt *rapid.T) { c12EditorCase(rt, rec, true, false) })
 	})
 	t.Run("closure", func(t *testing.T) {
 		rec := vh.NewRecorder("C12", "closure", "exploration", c12EditorRule,
@@ -1038,12 +1038,12 @@ func TestVerif_C12(t *testing.T) {
 				t.Errorf("CommitClosure shape depends on history: %s", what)
 			}
 		}
-		vh.Check(t, "histories", 30, 120, func(rt *rapid.T) { c12EditorCase(rt, rec, false, known) })
+		vh.Check(t, "histories", 50, 120, func(rt *rapid.T) { c12EditorCase(rt, rec, false, known) })
 	})
 	t.Run("blobs", func(t *testing.T) {
 		rec := vh.NewRecorder("C12", "blobs", "exploration", c12BlobRule,
 			"readers always fill the buffer they are given (every caller passes a bytes.Reader; the leaf writer issues one Read per chunk, so a short-reading io.Reader is outside the compared surface)")
 		defer rec.Write(t)
-		vh.Check(t, "builders", 150, 600, func(rt *rapid.T) { c12BlobCase(rt, rec) })
+		vh.Check(t, "builders", 300, 600, func(rt *rapid.T) { c12BlobCase(rt, rec) })
 	})
 }
